@@ -2,5 +2,6 @@
 pub mod prng;
 pub mod refcodec;
 pub mod report;
+pub mod rt;
 pub mod runner;
 pub mod props;
